@@ -169,7 +169,7 @@ func DrawSeg(t *rapid.T, maxN int, label string) Seg {
 	case 2:
 		s.K = "text"
 		s.S = rapid.Uint64().Draw(t, label+".seed")
-		s.P = rapid.SampledFrom([]int{2, 3, 4, 16, 26}).Draw(t, label+".alpha")
+		s.P = rapid.SampledFrom([]int{2, 3, 4, 10, 12, 16, 20, 26, 32}).Draw(t, label+".alpha")
 	case 3:
 		s.K = "run"
 		s.P = rapid.SampledFrom([]int{0, 0, 'a', 0xff, 0x80}).Draw(t, label+".byte")
